@@ -19,7 +19,7 @@ RULE = ("Histories over 19 operations {rewrite same size, rewrite other size, to
         "both), '*'} after an initial plain GET: exhaustive to length 3 (thorough 4), random length 7 beyond; targets Files:/f.txt, Pages:/p (-> p.html), "
         "Pages:/sub/ (-> index.html); both interfaces; process time zone rotated over UTC, America/Los_Angeles, Asia/Kolkata, Pacific/Kiritimati, Etc/GMT+12. Non-trivial = history with >=1 modification between a response and the reuse of its validators; "
         "exhaustive histories are distinct by construction.")
-RULE += ' Also: replacement by a file of another size whose mtime was carried over (only ctime moves), If-None-Match lists with empty members and with a comma inside a tag, conditional requests sent as GET or HEAD, apps with every cacheability / max_age setting.'
+RULE += ' Also: the validators in either order with other request headers before, between and after them; replacement by a file of another size whose mtime was carried over (only ctime moves), If-None-Match lists with empty members and with a comma inside a tag, conditional requests sent as GET or HEAD, apps with every cacheability / max_age setting.'
 ASSUMPTIONS = [
     "a request that carries only If-Modified-Since is not judged when the change time of the file is not later than the date the client holds although it lies in another second (file clock stepped backwards, or a carried-over mtime ahead of ctime): a date comparison cannot see such a change; ETag-carrying requests are judged",
     "file timestamps come from a virtual clock (os.stat is wrapped for sandbox paths only); content is really written to disk",
@@ -144,6 +144,16 @@ def run_history(ctx, vfs, iface, app, url_path, file_path, seq, start_frac, zone
                 }[base]
             if base.endswith("-range") and len(content[0]) == 0:
                 hd = [h for h in hd if h[0] != "Range"]  # no byte of an empty file can be asked for (416): the plain conditional request instead
+            # header order is the client's: If-Modified-Since before or after If-None-Match, other headers before, between and after
+            if (step + len(seq)) % 2:
+                hd = hd[::-1]
+            pad = (step + 2 * len(seq)) % 4
+            if pad == 1:
+                hd = [("Accept", "*/*")] + hd + [("Cookie", "a=b")]
+            elif pad == 2:
+                hd = hd[:1] + [("User-Agent", "verif/1"), ("Accept-Encoding", "gzip")] + hd[1:]
+            elif pad == 3:
+                hd = [("Cache-Control", "max-age=0")] + hd[:1] + [("X-Between", "1")] + hd[1:] + [("Accept-Language", "en")]
             # conditional requests are sent as GET or HEAD (a HEAD answer has no body; status and validators are the same)
             method = "HEAD" if (op != "plain" and (step + len(seq)) % 3 == 0) else "GET"
             st, h, body, exc = request(iface, app, url_path, hd, method)
